@@ -151,4 +151,15 @@ CancelReturnedMeansIdle == Fixed => \A j \in Cans : cpc[j] = "ret" =>
                               \A i \in Runs : rpc[i] \in {"idle", "entry", "done"}
 CancelReturns == \A j \in Cans : (cpc[j] = "c1") ~> (cpc[j] = "ret")
 ScheduleReturns == UseSched => <>(spc = "returned")
+\* With Fixed = TRUE this module refines CancelFlat.tla (the runs in flight as a set, the phases of
+\* a registered run as one state), whose safety theorem is proved with TLAPS for every number of
+\* runs and Cancel calls; the counter the code keeps is the cardinality of that set.
+ActiveStates == {"before", "beforeRun", "cmd", "running", "after", "afterRun"}
+FlatRpc(i) == CASE rpc[i] \in {"idle", "entry", "defer"} -> rpc[i]
+                [] rpc[i] \in ActiveStates -> "active"
+                [] OTHER -> "done"
+InFlight == {i \in Runs : rpc[i] \in ActiveStates \cup {"defer"}}
+Flat == INSTANCE CancelFlat WITH rpc <- [i \in Runs |-> FlatRpc(i)], infl <- InFlight
+FlatRefinement == Flat!Spec
+InflightIsCount == Fixed => inflight = Cardinality(InFlight)
 =======================================================================
